@@ -13,16 +13,19 @@ import (
 
 // WLCase describes a wordlist recipe the generators produce.
 type WLCase struct {
-	Words    []string       `json:"words"`
-	Length   int            `json:"length"`
-	Scheme   string         `json:"capitalize"`
-	SepKind  string         `json:"separator_kind"` // char | preset | constructed | user
-	SepChar  string         `json:"separator_char,omitempty"`
-	Preset   string         `json:"preset,omitempty"`
-	SepRec   *CharDesc      `json:"separator_recipe,omitempty"`
-	UserSeps []string       `json:"user_separators,omitempty"` // returned cyclically
-	UserEnt  float32        `json:"user_separator_entropy,omitempty"`
-	sepRec   spg.CharRecipe `json:"-"`
+	Words    []string  `json:"words"`
+	Length   int       `json:"length"`
+	Scheme   string    `json:"capitalize"`
+	SepKind  string    `json:"separator_kind"` // char | preset | constructed | user
+	SepChar  string    `json:"separator_char,omitempty"`
+	Preset   string    `json:"preset,omitempty"`
+	SepRec   *CharDesc `json:"separator_recipe,omitempty"`
+	UserSeps []string  `json:"user_separators,omitempty"` // returned cyclically
+	UserEnt  float32   `json:"user_separator_entropy,omitempty"`
+	// SepTrials > 0: the case is examined with MaxTrials=SepTrials, MaxFailRate=1 (public knobs), so that a
+	// separator recipe with a requirement really fails now and then and the separator function yields ""
+	SepTrials int            `json:"max_trials_knob,omitempty"`
+	sepRec    spg.CharRecipe `json:"-"`
 }
 
 func (w WLCase) String() string {
@@ -149,7 +152,7 @@ func genWLCase(r *gen.R, o wlOpts) WLCase {
 	case 1:
 		w.SepKind, w.SepChar = "char", []string{"-", " ", "_", ".", ","}[r.Intn(5)]
 	case 2:
-		w.SepKind, w.SepChar = "char", []string{"¡", "→←", "語", "🙂", "--", "a"}[r.Intn(6)]
+		w.SepKind, w.SepChar = "char", []string{"¡", "→←", "語", "🙂", "--", "a", "\uFFFD", "%"}[r.Intn(8)]
 	case 3:
 		w.SepKind, w.Preset = "preset", "SFNone"
 	case 4:
